@@ -38,6 +38,10 @@ fn alphabet() -> Vec<(&'static str, Vec<String>, bool)> {
         ("change_nullability", s(&["CREATE TABLE t (id INTEGER PRIMARY KEY NOT NULL, a TEXT NOT NULL DEFAULT '', b INTEGER NOT NULL DEFAULT 0)", T_IDX]), true),
         ("change_primary_key", s(&["CREATE TABLE t (id INTEGER NOT NULL, a TEXT NOT NULL DEFAULT '', b INTEGER, PRIMARY KEY (id, a))", T_IDX]), true),
         ("add_primary_key_u", s(&["CREATE TABLE u (k1 INTEGER NOT NULL, k2 TEXT NOT NULL, x TEXT NOT NULL DEFAULT '', PRIMARY KEY (k1, k2, x))"]), true),
+        // a *new* column that joins the key through a table-level PRIMARY KEY (the column-level spelling is refused by SQLite itself)
+        ("add_new_key_column_u_default", s(&["CREATE TABLE u (k1 INTEGER NOT NULL, k2 TEXT NOT NULL, x TEXT, k3 INTEGER NOT NULL DEFAULT 0, PRIMARY KEY (k1, k2, k3))"]), true),
+        ("add_new_key_column_u_nullable", s(&["CREATE TABLE u (k1 INTEGER NOT NULL, k2 TEXT NOT NULL, x TEXT, k4 TEXT, PRIMARY KEY (k1, k2, k4))"]), true),
+        ("add_new_key_column_t", s(&["CREATE TABLE t (id INTEGER NOT NULL, a TEXT NOT NULL DEFAULT '', b INTEGER, k5 INTEGER NOT NULL DEFAULT 1, PRIMARY KEY (id, k5))", T_IDX]), true),
         ("unique_index", s(&[T_BASE, T_IDX, "CREATE UNIQUE INDEX t_u ON t (b)"]), true),
         ("foreign_key", s(&["CREATE TABLE w (id INTEGER PRIMARY KEY NOT NULL, t_id INTEGER REFERENCES t (id))"]), true),
         ("syntax_error_at_1", s(&["CREATE TABL x1 (id INTEGER PRIMARY KEY NOT NULL)", "CREATE TABLE x2 (id INTEGER PRIMARY KEY NOT NULL)", "CREATE TABLE x3 (id INTEGER PRIMARY KEY NOT NULL)"]), true),
